@@ -97,4 +97,4 @@ def run(pid, tier, seed, replay):
                   "stress_rounds": len(stress), "stress_deliveries": sum(s["deliveries"] for s in stress), "race_detector": tier == "thorough"},
         samples=stress[:2] or [{}],
         rule="(0) label sequences of the wake-up LTS (Log/HwWaitRo.v) executed one call per label on a real commit log (Append, SetReadonly, SetHighWatermark, HighWatermark, waitForHW) and compared with the model after every label; (a) operation histories with committed and uncommitted Reader objects kept across appends, rolls, HW moves and truncations, every read compared with the model; (b) concurrent rounds: an appender, a HW mover with random steps, 2-6 committed readers started at arbitrary offsets (also beyond the HW and on an empty log) with an online monitor (offset <= HighWatermark() after the read, consecutive offsets, content) and a final drain that detects lost wake-ups; non-trivial = a history in which a live reader delivered, or a stress round; distinct by history / round",
-        evaluations=len(cases) + len(stress), distinct_nontrivial=len(canon) + len(stress), traces=len(cases))
+        evaluations=len(cases) + len(stress) + len(wcases), distinct_nontrivial=len(canon) + len(stress) + len(set(json.dumps([st['lb'] for st in c['steps']]) for c in wcases if any(st['lb']['l'] == 'wait' for st in c['steps']))), traces=len(cases) + len(wcases))
